@@ -16,7 +16,8 @@ CHECKS = {
                 text="Which nodes contribute tokens and in what order: every Pairs impl (320+, incl. Seq2..13, Choice2..13, 259 Unicode leaves, containers) "
                      "forwards each child-bearing field exactly once in declaration order (Skipped: skipped then matched), choices forward the "
                      "matched variant's payload, look-ahead nodes (class POS/NEG by their effect trees) forward nothing, silent rules forward "
-                     "content, other rules emit exactly themselves, (compound-)atomic rules report no children, as_token/to_thin copy rule/span/children.",
+                     "content, other rules emit exactly themselves, (compound-)atomic rules report no children, as_token/to_thin copy rule/span/children "
+                     "(resolved-term comparison), and container nodes store the node of every child that matched (tokens come from stored nodes).",
                 note="Does not decide equality with pest's tree on inputs or span values.",
                 ref="§4 C02"),
     "C03": dict(level="other", tech="twin equality of effect decision trees built from typed HIR (path-sensitive abstract evaluation, helpers inlined)",
@@ -42,7 +43,8 @@ CHECKS = {
                      "are balanced on every path; every path that recovers from a failed child (next alternative, None option, end of repetition, "
                      "negative look-ahead) passes restore, with a snapshot taken before the attempt, before any further stack/cursor/child event; "
                      "look-ahead nodes snapshot and never clear (stack restored even on success); no cursor produced inside a failed attempt is used "
-                     "afterwards; who-may-call: every caller of the snapshot API satisfies the pairing rule. Necessary structural conditions, not "
+                     "afterwards; who-may-call: every caller of the snapshot API satisfies the pairing rule; a child that matched is never thrown away with its stack "
+                     "effects kept (every continuing path uses the matched cursor or passes restore). Necessary structural conditions, not "
                      "acceptance on inputs.",
                 note="Assumes pest::Stack implements snapshot/restore as documented (known unsound nested clear_snapshot in pest 2.7.14 is listed in the "
                      "evidence assumptions); cursor primitives move the cursor only on success (C09 rule).",
@@ -67,7 +69,9 @@ CHECKS = {
                 text="For Position/SubInput1/SubInput2 in debug and release builds: get() slices input from the cursor field up to exactly end() (both "
                      "cfg arms the same range), byte_offset()/cursor() denote the same field, at_start/at_end compare with start()/end() and SOI/EOI "
                      "use them; inside Input's methods the parent string only flows to position construction, debug assertions or a slice bounded "
-                     "above by end() (this rule found and now guards the fixed skip_until defect); AsInput conversions copy the right fields.",
+                     "above by end() (this rule found and now guards the fixed skip_until defect); Input's methods delegate to nothing outside the trait "
+                     "except reviewed conversions and pure / Input-generic helpers; every child match and primitive of a node runs on a cursor "
+                     "derived from the node's own input; AsInput conversions copy the right fields.",
                 note="Necessary structural conditions; equality of whole parse results between the two ways of parsing is not decided.",
                 ref="§4 C08; §5.1"),
     "C09": dict(level="other", tech="call-graph inventories with exact-key discharge tables (unsafe blocks, panic sites), build-profile normal-form comparison",
@@ -92,19 +96,24 @@ CHECKS = {
                      "and emission functions are callable only from derive_typed_parser; for fixture grammars covering every operator variant of both "
                      "generators, recursive grammars under box_only_if_needed and option sets, the emitted code type-checks (reports the known "
                      "finding: counted repetition with pest_optimizer = false emits undefined names); non-dispatched calls on the parse path form no "
-                     "cycle, so recursion while parsing goes through the grammar. Termination on inputs is not decided.",
+                     "cycle, so recursion while parsing goes through the grammar; every loop of the runtime has a structural reason to end (finite "
+                     "iterator, or every path back to the head changes what the exit tests read; an empty draw is no progress); consuming "
+                     "primitives move the real cursor iff they succeed; stack built-ins and index normalisation fail where pest's validator "
+                     "assumes they fail or progress. Termination on inputs is not decided.",
                 note="pest_meta's validator is trusted; 'compiles' is sampled over fixture grammars with checked operator coverage.",
                 ref="§4 C11; §5.3"),
     "C12": dict(level="translation_validation", tech="sibling normal-form equality of typed HIR (repo copy vs pest source)",
                 text="Translation validation: Position::{new,line_col,line_of,find_line_start,find_line_end,at_start,at_end,...} "
                      "are shown to be the same programs as pest's (typed-HIR normal forms equal), hence equal results for every "
-                     "string and offset. Sufficient, not necessary: an unabsorbed behaviour-preserving rewrite is reported.",
+                     "string and offset; no crate-local trait shadows them in method-call syntax and calls inside pest_typed resolve to them. "
+                     "Sufficient, not necessary: an unabsorbed behaviour-preserving rewrite is reported.",
                 note="Trusts: pest's source (version resolved by Cargo.lock) as oracle; ptfacts prints rustc's HIR faithfully; "
                      "snf.py's normalisations (alpha-renaming, crate prefix, new_internal/new_unchecked, unsafe blocks, debug_assert) preserve meaning.",
                 ref="§4 C12,C13; §3.4"),
     "C13": dict(level="translation_validation", tech="sibling normal-form equality of typed HIR (repo copy vs pest source)",
                 text="Translation validation: Span::{new,get,start,end,start_pos,end_pos,split,as_str,get_input,lines,lines_span}, "
-                     "merge_spans, LinesSpan/Lines::next, PartialEq/Hash of Span and Position are the same programs as pest's.",
+                     "merge_spans, LinesSpan/Lines::next, PartialEq/Hash of Span and Position are the same programs as pest's; no crate-local trait "
+                     "shadows them in method-call syntax and calls inside pest_typed resolve to them.",
                 note="Same trusted base as C12.",
                 ref="§4 C12,C13; §3.4"),
     "C14": dict(level="other", tech="call-graph inventory of panic/usize-subtraction sites with exact-key discharge table; match-table read-off; must-pass-through rule",
@@ -133,7 +142,7 @@ CHECKS = {
                      "and reduced boxing: a getter exists exactly for the rules mentioned outside negative predicates; its return type is the "
                      "Option/Vec/tuple nesting of the mentions found in the rule's content type (nested options flattened); every leaf of the getter "
                      "body, evaluated as a projection, denotes the position of the i-th mention in grammar order; the two Generate impls build "
-                     "getters identically for shared operators.",
+                     "getters identically for shared operators, also in a grammar-extras build (node tags).",
                 note="Sampled over fixture grammars; expectations are computed from the emitted content type, not from the generator's getter code.",
                 ref="§4 C16"),
     "C17": dict(level="other", tech="item-table and accessor-body rules (preconditions of parametricity), child order in effect trees, leaf payload data-flow",
@@ -141,7 +150,8 @@ CHECKS = {
                      "variant _i, the helper chain runs the closure only for its first variant and passes the others on unchanged, sequence accessors "
                      "return content.0..n-1 in order; alternatives/elements are tried in parameter order and alternative k is stored in variant _k; "
                      "NEWLINE kind per literal, CharRange/ANY/Unicode content is the char read by the advancing primitive, Insens/PEEK/Skip spans are "
-                     "span(start, end), POP's span is the popped span, repetition iterators walk content in order.",
+                     "span(start, end), POP's span is the popped span, repetition iterators walk content in order; every Input::next hands out the "
+                     "character it read before moving the cursor; containers store every matched child.",
                 note="match_choices! and generated arities >= 12 are exercised through fixtures only.",
                 ref="§4 C17"),
     "C18": dict(level="other", tech="impl-table rules: field coverage of hand-written eq/hash, derived impls elsewhere, state scan of the runtime crate",
@@ -159,7 +169,7 @@ CHECKS = {
                 ref="§4 C19"),
     "C20": dict(level="other", tech="resolved-call scan for nondeterminism; sibling normal-form equality of the two Generate impls; rustc on fixture matrices; type-level facts per rule across option sets",
                 text="Partial: the generator iterates no hash-ordered collection and touches clock/thread/env only for path collection; the raw-AST and "
-                     "optimized-AST generators translate all 13 shared operators and the rule graph identically; derive output compiles for every "
+                     "optimized-AST generators translate all 13 shared operators (15 with grammar-extras) and the rule graph identically; derive output compiles for every "
                      "operator variant (optimizer on/off), for recursive grammars with box_only_if_needed and under option combinations (9 quick / 64 "
                      "thorough); across option sets with the same optimizer setting every rule keeps class tree, atomicity constants and emission, "
                      "only boxing/accessors differ. Reports the known finding (undefined RepExact/RepMin/RepMax names). Optimizer on/off language "
